@@ -225,6 +225,7 @@ type Frame struct {
 	inOld      int
 	pathMode   bool // loop-free function explored path by path, without merging states at joins
 	pathCount  int
+	beforeSeen int // call-site assertions ("before") emitted
 }
 
 type deferRec struct {
